@@ -891,6 +891,16 @@ func runRolloutSM(c *Ctx) {
 		if w.Ro.Style != "blueGreen" && c.Rng.Intn(4) == 0 {
 			w.PatchMeta = pickS(c, "labels", "annotations", "both", "empty")
 		}
+		if w.Ro.Style != "blueGreen" && w.Ro.Sub != nil && len(w.Ro.Steps) >= 2 && w.Ro.Phase == "Progressing" && w.Ro.Reason == "inRolling" && c.Rng.Intn(10) == 0 {
+			// focused: a traffic-only step (same replicas as its predecessor) is about to be entered by the natural advance
+			k := 1 + c.Rng.Intn(len(w.Ro.Steps)-1)
+			steps := append([]rsStep(nil), w.Ro.Steps...)
+			steps[k].Replicas = steps[k-1].Replicas
+			w.Ro.Steps = steps
+			sub := *w.Ro.Sub
+			sub.CurIdx, sub.NextIdx, sub.State, sub.Hash = k, k+1, "ready", "same"
+			w.Ro.Sub = &sub
+		}
 		rsCase(c, w)
 		if i%6 == 0 {
 			rsFaults(c, w, c.Thorough() && i%30 == 0)
